@@ -14,6 +14,12 @@ import sys, warnings; warnings.filterwarnings("ignore")
 sys.path.insert(0, sys.argv[1])
 from fractions import Fraction as F
 from shapepy import *
+if len(sys.argv) > 2 and sys.argv[2] == "explicit-options-first":
+    # the same process first answers questions with explicit optional arguments (must not influence the default answers below)
+    _c = Primitive.circle(radius=3)
+    IntegrateShape.area(_c, nnodes=2); IntegrateShape.polynomial(Primitive.square(side=2), 1, 0, nnodes=1); IntegrateShape.polynomial(_c, 1, 1, nnodes=3)
+    _c.jordans[0].points(3); _c.jordans[0].intersection(Primitive.square(side=5).jordans[0], equal_beziers=False, end_points=False)
+    _c.contains_point((0.5, 0.5), False); float(_c); _c == Primitive.circle(radius=3)
 A = Primitive.polygon([(0,0),(F(7,2),F(1,3)),(3,4),(F(-1,2),3)]); B = Primitive.polygon([(1,1),(6,2),(5,6),(2,5)])
 C = Primitive.circle(radius=2, center=(1, 1))
 out = []
@@ -38,7 +44,7 @@ def queries(j, pts):
 def run(ctx):
     from shapepy import JordanCurve, SimpleShape
     rng, drv = ctx.rng, ctx.drv
-    n = 30 if ctx.quick else 1500
+    n = 30 if ctx.quick else 400
     for it in range(n):
         ops = history.rand_history(rng, rng.randint(4, 16), nvars=rng.randint(1, 3), with_rot=(it % 3 == 0))
         has_rot = any(o[0] == "rot" for o in ops)
@@ -76,7 +82,7 @@ def run(ctx):
             for v, j in objs.items():
                 ctx.check(shapes.geom(j) == mvars.get(v), "geometry after history differs from the heap model", {**desc, "var": v}, mvars.get(v), shapes.geom(j))
     # ---- shapes of all kinds: same operator before and after unrelated calls
-    m = 15 if ctx.quick else 400
+    m = 15 if ctx.quick else 100
     for it in range(m):
         ka, kb = rng.choice(shapes.DEFINED), rng.choice(shapes.DEFINED)
         A, da = shapes.make(rng, ka, rng.randint(-3, 3), rng.randint(-3, 3), drv)
@@ -105,7 +111,7 @@ def run(ctx):
     # ---- shapes of every kind: warm every cache, transform in place, then every answer must equal that of a freshly BUILT twin
     from harness.props.c04 import rebuild
     from harness.props.c09 import apply_desc
-    for it in range(12 if ctx.quick else 500):
+    for it in range(12 if ctx.quick else 100):
         kind = shapes.DEFINED[it % len(shapes.DEFINED)]
         S, d = shapes.make(rng, kind, rng.randint(-2, 2), rng.randint(-2, 2), drv)
         probeS, dp = shapes.make(rng, "simple", rng.randint(-2, 2), rng.randint(-2, 2), drv)
@@ -144,12 +150,36 @@ def run(ctx):
         ctx.check(live == again, "asking twice changed the answers", desc, live, again)
         ctx.check(live == fresh, "transformed shape answers differently from a freshly built one", desc, fresh, live)
         ctx.check(op_live == op_fresh, "operator with a third shape differs from the freshly built twin", desc)
+    # ---- equal shapes that were operands of DIFFERENT operations (refined in place at different places) still compare equal
+    from shapepy import Primitive
+    for it in range(3 if ctx.quick else 40):
+        vs = shapes.rand_simple_vs(rng, 0, 0, R=6)
+        if drv.ask("genpos 1 " + core.epoly(vs)) != "T":
+            continue
+        a, b, ref = shapes.simple(vs), shapes.simple(vs), shapes.simple(vs)
+        box = a.box()
+        lo, hi = tuple(box.lowpt), tuple(box.toppt)
+        w = hi[0] - lo[0]
+        below = shapes.simple([(lo[0] + w / 3, lo[1] - 5), (lo[0] + 2 * w / 3, lo[1] - 5), (lo[0] + w / 2, (lo[1] + hi[1]) / 2)])
+        above = shapes.simple([(lo[0] + w / 3, hi[1] + 5), (lo[0] + w / 2, (lo[1] + hi[1]) / 2), (lo[0] + 2 * w / 3, hi[1] + 5)])
+        ok_pos = drv.ask(f"transversal {core.eshape(a)} {core.eshape(below)}") == "T" and drv.ask(f"transversal {core.eshape(a)} {core.eshape(above)}") == "T"
+        if not ok_pos:
+            continue
+        e0 = (a == b, a == ref)
+        try:
+            a | below; b | above
+        except Exception as ex:
+            ctx.fail("operator raised on transversal operands", {"vertices": vs}, got=repr(ex)); continue
+        e1 = (a == b, b == a, a == ref, ref == b, copy.deepcopy(a) == b)
+        ctx.case("equal-after-different-operations", tuple(vs))
+        ctx.check(all(e0) and all(e1), "equal shapes compare unequal after being operands of different operations", {"vertices": vs}, True, (e0, e1))
     # ---- same computation in fresh processes, different hash seeds
     seeds = ["0", "1"] if ctx.quick else ["0", "1", "42", "random", "4242"]
     outs = []
     for hs in seeds:
         env = dict(os.environ, PYTHONHASHSEED=hs, MPLBACKEND="Agg")
-        p = subprocess.run(["/venv/bin/python", "-c", SCRIPT, os.path.join(core.REPO, "src")], capture_output=True, text=True, env=env, timeout=600)
+        extra = ["explicit-options-first"] if hs in ("1", "4242") else []
+        p = subprocess.run(["/venv/bin/python", "-c", SCRIPT, os.path.join(core.REPO, "src")] + extra, capture_output=True, text=True, env=env, timeout=600)
         outs.append(p.stdout.strip() if p.returncode == 0 else "ERROR " + p.stderr[-300:])
         ctx.case("fresh-process", ("hashseed", hs))
     ctx.check(all(o == outs[0] and not o.startswith("ERROR") for o in outs), "results differ between processes / hash seeds", {"hashseeds": seeds}, outs[0][:300], [o[:300] for o in outs[1:]])
